@@ -114,6 +114,7 @@ def resStr : Res → String
   | .ready => " ready"
   | .pinc st b => " " ++ itemStr st ++ " " ++ tf b
   | .isEnd b => " " ++ (if b then "1" else "0")
+  | .active b => " " ++ (if b then "1" else "0")
   | .destroyed => ""
 
 /-- `for (int &v : gen)`: `it = begin(); while (it != end()) { *it; ++it; }` -/
@@ -130,6 +131,27 @@ def forLoop (d : D) (acc : String) (b : Bool) : Nat → D × String
             | .next b2 => forLoop d2 (acc ++ s!" v:{v}") b2 fuel
             | other => (d2, acc ++ s!" v:{v}" ++ resStr other)
         | other => (d1, acc ++ resStr other)
+
+/-- `while (gen) { if (!gen.next(a)) break; use(gen.value()); }` (operator bool of the generator, operator! of next_awt); with an
+argument type the calls pass a, a+1, … (printed as `arg=` markers) -/
+def whileLoop (d : D) (acc : String) (a : Nat) : Nat → D × String
+  | 0 => (d, acc ++ " bad")
+  | fuel + 1 =>
+      let (d1, r) := prim d .active
+      match r with
+      | .active false => (d1, acc ++ " end")
+      | .active true =>
+          let d1m : D := if d1.s.mode then { d1 with out := d1.out.push s!"arg={a}" } else d1
+          let (d2, r2) := syncOp d1m (.syncBegin a)
+          match r2 with
+          | .next true =>
+              let (d3, r3) := prim d2 .value
+              match r3 with
+              | .item (.val v) => whileLoop d3 (acc ++ s!" v:{v}") (a + 1) fuel
+              | other => (d3, acc ++ resStr other)
+          | .next false => (d2, acc ++ " end")
+          | other => (d2, acc ++ resStr other)
+      | other => (d1, acc ++ resStr other)
 
 def forOp (d : D) : D × String :=
   let d0 := (prim d .itDrop).1
@@ -171,6 +193,15 @@ def argOf (ws : List String) : Nat := (natArg ws 1).getD 0
 def doLine (d : D) (ws : List String) : D × String :=
   match ws with
   | "next" :: _ => let (d', r) := syncOp d (.syncBegin (argOf ws)); (d', "next" ++ resStr r)
+  | "nnext" :: _ => let (d', r) := syncOp d (.syncBegin (argOf ws)); (d', "nnext" ++ resStr r)   -- `!gen.next(a)`: same access
+  | ["active"] => let (d', r) := prim d .active; (d', "active" ++ resStr r)
+  | ["getid"] => (d, if d.s.alive then "getid ok" else "getid gone")
+  | ["beginc"] => let (d', r) := syncOp d .itBegin; (d', "beginc" ++ resStr r)     -- generator_iterator(gen): same as begin()
+  | ["arrow"] => let (d', r) := prim d .itDeref; (d', "arrow" ++ resStr r)         -- *it.operator->(): same as *it
+  | "while" :: _ =>
+      if !d.s.alive then (d, "while gone")
+      else if d.s.caller != .none then (d, "while busy")
+      else let (d', str) := whileLoop d "" (argOf ws) (fuelOf d + 2); (d', "while" ++ str)
   | ["value"] => let (d', r) := prim d .value; (d', "value" ++ resStr r)
   | "anext" :: _ => let (d', r) := prim d (.anext (argOf ws)); (d', "anext" ++ resStr r)
   | "sub" :: _ =>
